@@ -56,6 +56,7 @@ var (
 	accountT = reflect.TypeOf(ton.AccountID{})
 	int256T  = reflect.TypeOf(tl.Int256{})
 	msgAddrT = reflect.TypeOf(tlb.MsgAddress{})
+	magicT   = reflect.TypeOf(tlb.Magic(0))
 )
 
 func genValue(c *core.Ctx, t reflect.Type) (reflect.Value, error) {
@@ -68,6 +69,9 @@ func genValue(c *core.Ctx, t reflect.Type) (reflect.Value, error) {
 		}
 		copy(a.Address[:], c.Content("addr", 32))
 		return reflect.ValueOf(a), nil
+	case magicT:
+		// as a stand-alone JSON value a Magic is just a number; zero and the extremes included
+		return reflect.ValueOf(tlb.Magic(uint32([]uint64{0, 1, 0x10, 0xff, 0xffffffff, c.U64("magic")}[c.Choose("magic.k", 6)]))), nil
 	case int256T:
 		var x tl.Int256
 		copy(x[:], c.Content("int256", 32))
